@@ -8,6 +8,7 @@ package main
 import (
 	"bufio"
 	"crypto/tls"
+	"crypto/x509"
 	"encoding/json"
 	"flag"
 	"fmt"
@@ -106,6 +107,38 @@ func main() {
 			failures = append(failures, failure{"overlapped-setup", hs, hf, "the certificate presented in the tunnel is not acceptable for the tunnel's host: " + err.Error()})
 		}
 	}
+	// a ClientHello whose server_name is not the CONNECT target (an alias, or a name for an IP target): the client asked
+	// the proxy for the CONNECT target and verifies what it is presented for THAT name
+	for i, pr := range [][2]string{{"origin-a.example.org", "front.example.org"}, {"192.0.2.7", "alias.example.org"}, {"origin-b.example.org", "ORIGIN-B.example.org"}, {"origin-c.example.org", ""}} {
+		target, sni := pr[0], pr[1]
+		c, err := connect(env, target+":8443")
+		total++
+		dist["sni-differs"]++
+		if err != nil {
+			failures = append(failures, failure{"sni-differs", target, sni, "CONNECT failed: " + err.Error()})
+			continue
+		}
+		tc := tls.Client(c, &tls.Config{ServerName: sni, InsecureSkipVerify: true})
+		err = tc.Handshake()
+		if err != nil {
+			failures = append(failures, failure{"sni-differs", target, sni, "handshake failed: " + err.Error()})
+			c.Close()
+			continue
+		}
+		certs := tc.ConnectionState().PeerCertificates
+		c.Close()
+		if len(certs) == 0 {
+			failures = append(failures, failure{"sni-differs", target, sni, "no certificate presented"})
+			continue
+		}
+		inter := x509.NewCertPool()
+		for _, ic := range certs[1:] {
+			inter.AddCert(ic)
+		}
+		if _, err := certs[0].Verify(x509.VerifyOptions{Roots: env.CAPool, Intermediates: inter, DNSName: target}); err != nil {
+			failures = append(failures, failure{"sni-differs", target, "server_name in the ClientHello: " + sni, fmt.Sprintf("case %d: the certificate presented in the tunnel does not verify for the CONNECT target: %v", i, err)})
+		}
+	}
 	// bursts of concurrent tunnels
 	for round := 0; round < rounds/3+1; round++ {
 		var wg sync.WaitGroup
@@ -136,7 +169,7 @@ func main() {
 	}
 	out := map[string]any{
 		"harness": "tunnelcert", "seed": *flagSeed, "tier": *flagTier, "total": total, "distinct": total, "distinct_nontrivial": total,
-		"rule":         "real proxy, CONNECT tunnels: forced schedule CONNECT A / 200 / CONNECT B / 200 / handshake in either order (different hosts, and the same host twice) + bursts of 12 concurrent tunnels to 5 hosts; every handshake is verified by crypto/tls against the configured CA with the tunnel's own host as server name (chain, name, validity now)",
+		"rule":         "real proxy, CONNECT tunnels: forced schedule CONNECT A / 200 / CONNECT B / 200 / handshake in either order (different hosts, and the same host twice) + a ClientHello whose server_name differs from the CONNECT target (alias, name for an IP target, other letter case, none) + bursts of 12 concurrent tunnels to 5 hosts; every handshake is verified by crypto/tls against the configured CA with the tunnel's own host as server name (chain, name, validity now)",
 		"distribution": map[string]any{"scenario": dist},
 		"samples":      []any{map[string]any{"scenario": "overlapped-setup", "first": "alpha0.example.org", "second": "beta0.example.net"}},
 		"files":        []string{}, "readable": []any{},
